@@ -52,8 +52,12 @@ func PlainKey(k string) string { return offsetRe.ReplaceAllString(k, "") }
 // FactIs reports whether st holds fact `plain` (offset-free key form, e.g. "err == nil",
 // "s.developmentMode", "cacheAfterParsing") with the given truth value.
 func FactIs(st *State, plain string, val bool) bool {
+	alt := plain
+	if i := strings.Index(plain, " == "); i >= 0 && !strings.ContainsAny(plain, "()&|") {
+		alt = plain[i+4:] + " == " + plain[:i] // operands of == are ordered by their internal keys
+	}
 	for k, v := range st.Facts {
-		if PlainKey(k) == plain && v == val {
+		if pk := PlainKey(k); (pk == plain || pk == alt) && v == val {
 			return true
 		}
 	}
